@@ -6,6 +6,7 @@ import Lean.Data.Json
 import Snmp.Model.UsmParams
 import Snmp.Model.V3Glue
 import Snmp.Model.Reenc
+import Snmp.Model.TrapWire
 import Snmp.Model.Basic
 import Snmp.Model.Py
 import Snmp.Model.Types
@@ -479,6 +480,22 @@ def trapRun (j : Json) : Except String Json := do
       | none => Json.null] : Array Json)
   pure (Json.mkObj [("deliveries", toJson out)])
 
+/-- the same, the model being handed nothing but the datagrams -/
+def trapWire (j : Json) : Except String Json := do
+  let community ← bytesOfJson (← j.getObjVal? "community")
+  let arr ← (← j.getObjVal? "dgrams").getArr?
+  let ds ← arr.toList.mapM fun e => do
+    let a ← e.getArr?
+    let arg (i : Nat) : Json := a[i]?.getD Json.null
+    pure ((⟨← (arg 0).getStr?, ← (arg 1).getNat?⟩ : Trap.Source), ← bytesOfJson (arg 2))
+  let out := (Trap.deliveriesWire community ds).map fun d =>
+    toJson (#[(match d.source with | some x => toJson x.address | none => Json.null),
+      (match d.source with | some x => toJson x.port | none => Json.null), toJson d.tag, toJson (d.vbs.map vbToJson),
+      match Trap.trapInfo d with
+      | some v => pyValToJson v
+      | none => Json.null] : Array Json)
+  pure (Json.mkObj [("deliveries", toJson out)])
+
 /-! ### disco.run -/
 def discoRun (j : Json) : Except String Json := do
   let ctx ← bytesOfJson (← j.getObjVal? "ctx")
@@ -770,6 +787,7 @@ def handle (j : Json) : Except String Json := do
   | "conc.run" => concRun j
   | "disco.run" => discoRun j
   | "trap.run" => trapRun j
+  | "trap.wire" => trapWire j
   | "udp.run" => udpRun j
   | "tablify" => tablifyOp j
   | "table.run" => tableRun j
